@@ -14,6 +14,7 @@
 #include <sys/select.h>
 #include <signal.h>
 #include <sys/resource.h>
+#include <cerrno>
 using namespace bpp; using namespace verif;
 
 static std::string showMap(const std::map<std::string, std::string>& m) {
@@ -23,42 +24,62 @@ static std::string showMap(const std::map<std::string, std::string>& m) {
   return s;
 }
 
-// resolveVariables has an unbounded loop: run it in a child process under a watchdog and report
-// `hang` when it does not answer in time (or dies, e.g. by exhausting memory)
-static std::string varsGuarded(std::map<std::string, std::string> m) {
-  int fd[2]; if (pipe(fd) != 0) return "exc:std";
+// resolveVariables has an unbounded loop: run it in a child process under a watchdog.
+// Outcome `hang` = the child used up its CPU-time limit (SIGXCPU, independent of the load of the
+// machine), or the generous wall-clock bound passed, or the sanitizer's allocator gave up (a value
+// that grows for ever).  Anything else that goes wrong (fork failure, child lost) is retried.
+static int varsOnce(const std::map<std::string, std::string>& m0, std::string& out) {
+  int fd[2]; if (pipe(fd) != 0) return -1;
   std::cout.flush();
   pid_t pid = fork();
+  if (pid < 0) { close(fd[0]); close(fd[1]); return -1; }
   if (pid == 0) {
     close(fd[0]);
-    // the watchdog is CPU time (independent of the load of the machine): a loop that does not end
-    // is killed by SIGXCPU after 1 s of CPU; the parent only keeps a generous wall-clock bound
     struct rlimit rl; rl.rlim_cur = 1; rl.rlim_max = 2; setrlimit(RLIMIT_CPU, &rl);
     signal(SIGXCPU, SIG_DFL);
-    std::string out;
-    try { AttributesTools::resolveVariables(m); out = showMap(m); }
-    catch (Exception&) { out = "exc:bpp"; }
-    catch (std::exception&) { out = "exc:std"; }
-    size_t off = 0; while (off < out.size()) { ssize_t w = write(fd[1], out.data() + off, out.size() - off); if (w <= 0) break; off += (size_t)w; }
+    std::map<std::string, std::string> m(m0);
+    std::string o;
+    try { AttributesTools::resolveVariables(m); o = showMap(m); }
+    catch (Exception&) { o = "exc:bpp"; }
+    catch (std::exception&) { o = "exc:std"; }
+    o += "\n";                                       // end marker: the answer is complete
+    size_t off = 0; while (off < o.size()) { ssize_t w = write(fd[1], o.data() + off, o.size() - off); if (w <= 0) break; off += (size_t)w; }
     close(fd[1]); _exit(0);
   }
   close(fd[1]);
-  std::string out; bool timedOut = false;
-  const char* e = getenv("VERIF_VARS_TIMEOUT_MS"); long budget = e ? atol(e) : 30000;
+  out.clear(); bool timedOut = false;
+  const char* e = getenv("VERIF_VARS_TIMEOUT_MS"); long budget = e ? atol(e) : 60000;
   for (;;) {
     fd_set rs; FD_ZERO(&rs); FD_SET(fd[0], &rs);
     struct timeval tv; tv.tv_sec = budget / 1000; tv.tv_usec = (budget % 1000) * 1000;
     int r = select(fd[0] + 1, &rs, nullptr, nullptr, &tv);
+    if (r < 0 && errno == EINTR) continue;
     if (r <= 0) { timedOut = true; break; }
     char buf[4096]; ssize_t n = read(fd[0], buf, sizeof buf);
+    if (n < 0 && errno == EINTR) continue;
     if (n <= 0) break;
     out.append(buf, (size_t)n);
   }
   close(fd[0]);
   if (timedOut) kill(pid, SIGKILL);
-  int st = 0; waitpid(pid, &st, 0);
-  if (timedOut || out.empty()) return "hang";
-  return out;
+  int st = 0; while (waitpid(pid, &st, 0) < 0 && errno == EINTR) {}
+  if (timedOut) return 1;
+  if (!out.empty() && out[out.size() - 1] == '\n') { out.erase(out.size() - 1); return 0; }   // complete answer
+  if (WIFSIGNALED(st) && (WTERMSIG(st) == SIGXCPU || WTERMSIG(st) == SIGKILL)) return 1;       // CPU limit
+  if (WIFEXITED(st) && WEXITSTATUS(st) != 0) return 1;     // sanitizer abort: out of memory on a growing value
+  if (WIFSIGNALED(st) && WTERMSIG(st) == SIGABRT) return 1;
+  return -1;                                               // lost child: retry
+}
+
+static std::string varsGuarded(const std::map<std::string, std::string>& m) {
+  std::string out;
+  for (int attempt = 0; attempt < 6; ++attempt) {
+    int r = varsOnce(m, out);
+    if (r == 0) return out;
+    if (r == 1) return "hang";
+    usleep(50000 * (attempt + 1));
+  }
+  return "harness-fork-failed";
 }
 
 static std::string op(const Toks& t) {
